@@ -3,7 +3,7 @@ import ast
 
 from ..model import AnalysisError, Model, walk_no_nested, norm_stmt, names_in
 from ..callgraph import CallGraph
-from .. import flow, siblings
+from .. import flow, siblings, sem
 
 EXPLANATION = (
     'Decided: (R1) every encode/decode/encode_of/decode_of call whose receiver is a named child (bound by iterating or looking up a '
@@ -181,26 +181,58 @@ def check(ctx):
     ctx.instance('C12.R2', 'add_location appends its argument to self.location', 'ok' if ok else 'VIOLATION', node=al, file=INIT)
     if not ok:
         ctx.violation('C12.R2', INIT, al, Model.qual(al), 'add_location no longer appends the element to self.location (insert/prepend would reverse every path)', stmt='append')
-    src = ast.unparse(ls)
-    ok = "'.'.join(" in src and 'self.location[::-1]' in src and '.name' in src
+    # location_str: '.'.join(<name of x> for x in <self.location reversed> ...)
+    lv = sem.View(ls)
+    ok = False
+    for r_ in walk_no_nested(ls):
+        if not (isinstance(r_, ast.Return) and r_.value is not None):
+            continue
+        e_ = lv.expr(r_.value)
+        if isinstance(e_, ast.Call) and isinstance(e_.func, ast.Attribute) and e_.func.attr == 'join' and isinstance(e_.func.value, ast.Constant) and e_.func.value.value == '.' and e_.args:
+            gen = e_.args[0]
+            if isinstance(gen, (ast.GeneratorExp, ast.ListComp)):
+                it = lv.text(gen.generators[0].iter)
+                names_ = any(isinstance(x_, ast.Attribute) and x_.attr == 'name' for x_ in ast.walk(gen.elt))
+                ok = it in ('self.location[::-1]', 'reversed(self.location)', 'list(reversed(self.location))') and names_
     ctx.instance('C12.R2', 'location_str joins reversed names with "."', 'ok' if ok else 'VIOLATION', node=ls, file=INIT)
     if not ok:
         ctx.violation('C12.R2', INIT, ls, Model.qual(ls), 'location_str must join the names of self.location in reverse order (outermost first) with "."', stmt='location_str')
-    src = ast.unparse(st)
-    ok = 'self.location_str' in src and 'self.message' in src and "'{}: {}'.format(self.location_str, self.message)" in src
+
+    def path_then_message(f_):
+        """some returned text places self.location_str before self.message (separated by ': '), or delegates to the base class"""
+        ps_ = sem.paths(f_) or []
+        for p_ in ps_:
+            if p_.outcome[0] != 'return' or len(p_.outcome) < 4:
+                continue
+            t_ = p_.outcome[1]
+            if 'super(' in t_ and '__str__()' in t_:
+                return True
+            i_, j_ = t_.find('self.location_str'), t_.find('self.message')
+            if 0 <= i_ and (j_ < 0 or i_ < j_) and (j_ >= 0) and any(isinstance(c_, ast.Constant) and isinstance(c_.value, str) and ': ' in c_.value for c_ in ast.walk(p_.outcome[3])):
+                # the template must put the first argument first
+                tmpl = [c_.value for c_ in ast.walk(p_.outcome[3]) if isinstance(c_, ast.Constant) and isinstance(c_.value, str) and ': ' in c_.value]
+                if not any(re.search(r'\{1\}.*\{0\}', x_) for x_ in tmpl):
+                    return True
+        return False
+    ok = path_then_message(st)
     ctx.instance('C12.R2', '__str__ = "<path>: <message>"', 'ok' if ok else 'VIOLATION', node=st, file=INIT)
     if not ok:
         ctx.violation('C12.R2', INIT, st, Model.qual(st), '__str__ no longer starts with the dotted path', stmt='__str__')
     de = model.cls(INIT, 'DecodeError').methods.get('__str__')
     if de is not None:
-        src = ast.unparse(de)
-        ok = "'{}: {}'.format(self.location_str, self.message)" in src
+        ok = path_then_message(de)
         ctx.instance('C12.R2', 'DecodeError.__str__ = "<path>: <message>..."', 'ok' if ok else 'VIOLATION', node=de, file=INIT)
         if not ok:
             ctx.violation('C12.R2', INIT, de, Model.qual(de), 'DecodeError.__str__ no longer starts with the dotted path', stmt='__str__')
     # initial location: the constructor wraps `location` in a list
     ini = ewl.methods.get('__init__')
-    ok = ini is not None and 'self.location = [location] if location else []' in ast.unparse(ini)
+    ok = False
+    if ini is not None:
+        ips = sem.paths(ini, positional=True) or []
+        lp = 'ARG%d' % (flow.param_names(ini)[1:].index('location')) if 'location' in flow.param_names(ini) else None
+        stores = {(ev[1], p_.has(lp, True), p_.has(lp, False)) for p_ in ips for ev in p_.events if ev[0] == 'store' and ev[1].startswith('self.location = ')}
+        ok = lp is not None and any(t_ == 'self.location = [%s]' % lp and (yes or not no) for t_, yes, no in stores) and \
+            not any(t_ != 'self.location = [%s]' % lp and yes for t_, yes, no in stores)
     ctx.instance('C12.R2', '__init__ starts the path with the raising element', 'ok' if ok else 'VIOLATION', node=ini, file=INIT)
     if not ok:
         ctx.violation('C12.R2', INIT, ini, Model.qual(ini), 'ErrorWithLocation.__init__ no longer initialises self.location from its location argument', stmt='__init__ location')
@@ -296,6 +328,23 @@ def check(ctx):
                 ok = bool(names & {'EncodeError', 'ConstraintsError'})
             elif name == 'NotImplementedError':
                 ok = True
+            else:
+                # raise <helper>(...): a method / function of the module that builds the error
+                g_ = None
+                if isinstance(fn, ast.Attribute) and isinstance(fn.value, ast.Name) and fn.value.id in ('self', 'cls') and getattr(f, '_cls', None) is not None:
+                    r2 = f._cls.find_method(fn.attr)
+                    g_ = r2[1] if r2 else None
+                elif isinstance(r, ast.FunctionDef):
+                    g_ = r
+                if g_ is not None:
+                    built = []
+                    for x_ in walk_no_nested(g_):
+                        if isinstance(x_, ast.Return) and x_.value is not None:
+                            v_ = x_.value
+                            cfn = v_.func if isinstance(v_, ast.Call) else v_
+                            rr = g_._mod.resolve(cfn) if isinstance(cfn, (ast.Name, ast.Attribute)) else None
+                            built.append(bool(hasattr(rr, 'mro') and {c.name for c in rr.mro()} & {'EncodeError', 'ConstraintsError'}))
+                    ok = bool(built) and all(built)
             n4 += 1
             ctx.instance('C12.R4', '%s raise %s' % (Model.qual(f), name), 'library error' if ok else 'VIOLATION', node=n, file=rel)
             if not ok:
